@@ -320,6 +320,32 @@ func checkC10(c *hx.Checker) {
 			}
 		}
 	}
+	// Abs over the whole integer alphabets (all values of 8/16-bit types; powers of two +-1, extremes and float
+	// rounding witnesses for wider ones)
+	for _, dt := range gateDTs("Abs", 0) {
+		if !dt.IsInt() {
+			continue
+		}
+		all := ref.CastAlphabet(dt)
+		x := &ref.T{DT: dt, Shape: []int{len(all)}, V: all}
+		exp, err := ref.Unary("Abs", x)
+		extra := []string{"all-values"}
+		if dt.IsUnsigned() {
+			extra = append(extra, "unsigned")
+		}
+		jobs = append(jobs, newJob("Abs", nil, []*ref.T{x}, []*ref.T{exp}, err, hx.DCompute, hx.Bits, "op", nil, "integer-alphabet", extra...))
+	}
+	// PRelu with a per-channel slope (C,1,1) on rank-4 feature maps, square and not, small and above 4096 elements
+	for _, sh := range [][]int{{1, 2, 3, 3}, {2, 3, 2, 5}, {1, 3, 31, 47}, {2, 2, 33, 33}, {1, 5, 9, 101}} {
+		for _, dt := range []ref.DT{ref.F32, ref.F64} {
+			x := ref.Fill(dt, sh, func(i int) float64 { return float64((i*7+3)%23) - 11.5 })
+			for _, ssh := range [][]int{{sh[1], 1, 1}, {1, sh[1], 1, 1}, {sh[3]}, {sh[2], 1}} {
+				sl := ref.Fill(dt, ssh, func(i int) float64 { return float64(i+1)*0.25 - 0.6 })
+				exp, err := ref.PRelu(x, sl)
+				jobs = append(jobs, newJob("PRelu", nil, []*ref.T{x, sl}, []*ref.T{exp}, err, hx.DCompute, hx.Bits, "op", nil, fmt.Sprintf("feature-map slope%v", ssh), "feature-map"))
+			}
+		}
+	}
 	for _, sh := range box {
 		x := ref.Distinct(ref.Bool, sh)
 		exp, err := ref.Unary("Not", x)
